@@ -5,13 +5,15 @@ import FpgoVerif.Model.C13Ask
     * `ask mcap=<k> n=<n> spec=<K><rcap>,…: op ; op ; …`   directed schedule.  Asker `i` is described by the i-th
       spec item: kind `O` AskOnce, `T` AskOnceWithTimeout with a timeout that never fires within the case,
       `S` AskOnceWithTimeout with a short timeout (fires unless the reply arrives first), `C` AskChannel + a
-      receive by the caller; `<rcap>` = capacity of the reply channel (`NewByOptions`), 0 = `New`.
+      receive by the caller; `<rcap>` = capacity of the reply channel, optionally followed by the constructor (`n` New, `g` AskNewGenerics,
+      `o` NewByOptions, `p` AskNewByOptionsGenerics; `o`/`p` with `rcap` 0 = a caller-made UNBUFFERED channel).
       The actor parks before every reply (`ask.reply.beforeSend`); `S` askers park when their timer fired
       (`ask.timeout.fired`).  Ops:
         `a<i>`  asker i starts its call            `r`     release the actor into the `select` of `Reply`
         `w<i>`  wait until asker i's timer fired   `u<i>`  release asker i: `close(done)`, return the timeout
       Observation after every op (after everything that can move has moved):
-        `<asker states>/<actor state>`  askers: `-` not started, `w` in its call (possibly parked after its timer
+        `<asker states>/<actor state>`  askers: `-` not started, `s` inside `target.Send` (request not yet in the mailbox), `w` waiting for
+        the reply (possibly parked after its timer
         fired), `V` returned a value, `T` returned the timeout; actor: `i` idle, `p<k>` parked before replying to k,
         `b<k>` blocked in the select of the reply to k.
       Last: `end <status> res=<i:V<value>|T|-,…> srv=<requests served, in order> pan=<panics>`.
@@ -89,7 +91,8 @@ def doOp (x : Sched) (tok : String) : Sched :=
 def askerChar (a : Asker) : Char :=
   match a.pc with
   | .idle => '-'
-  | .sending | .waiting | .got _ | .fired => 'w'
+  | .sending => 's'
+  | .waiting | .got _ | .fired => 'w'
   | .retV _ => 'V'
   | .retT => 'T'
 
@@ -125,7 +128,9 @@ def headBody (line : String) : String × String :=
 /-- spec item `K<rcap>` -/
 def parseSpec (item : String) : Kind × Nat × Bool :=
   let k := item.front
-  let rc := ((item.drop 1).toString.toNat?).getD 0
+  -- `<K><rcap>[ctor]`: the optional trailing letter names the constructor used by the harness (n New, g AskNewGenerics,
+  -- o NewByOptions, p AskNewByOptionsGenerics — the last two with a caller-made channel, unbuffered for rcap 0)
+  let rc := ((String.ofList ((item.drop 1).toString.toList.takeWhile Char.isDigit)).toNat?).getD 0
   match k with
   | 'O' => (.once, rc, false)
   | 'C' => (.channel, rc, false)
